@@ -443,6 +443,54 @@ Definition multi_mode_dot_e (T : tensor F) (Ms : list (tensor F)) (modes : optio
   if einsum_sizes_ok (seq 0 order :: s_ins st) (T :: s_ops st)
   then Ok (einsum (seq 0 order :: s_ins st) (s_out st) (T :: s_ops st)) else Err).
 
+(* ------------------------------------------------------------------ multi_mode_dot with the modes as Python ints, AS IT IS *)
+(* both backends sort the operands by the RAW mode numbers and then use mode - decrement (resolved from the end when negative by
+   NumPy / by Python list indexing), which presumes that a smaller mode number is an earlier mode of the tensor *)
+Definition ztriple := (tensor F * Z * nat)%type.
+Definition zt_mode (x : ztriple) : Z := snd (fst x).
+Fixpoint insert_sorted_z (x : ztriple) (l : list ztriple) : list ztriple :=
+  match l with
+  | [] => [x]
+  | y :: r => if (zt_mode x <=? zt_mode y)%Z then x :: y :: r else y :: insert_sorted_z x r
+  end.
+Definition sort_by_mode_z (l : list ztriple) : list ztriple := fold_right insert_sorted_z [] l.
+Definition zip3z (Ms : list (tensor F)) (ms : list Z) : list ztriple := combine (combine Ms ms) (seq 0 (length Ms)).
+Fixpoint mmd_loop_z (l : list ztriple) (skip : option nat) (tr : bool) (dec : Z) (acc : tensor F) : res (tensor F) :=
+  match l with
+  | [] => Ok acc
+  | (M, z, i) :: r =>
+      if is_skip skip i then mmd_loop_z r skip tr dec acc
+      else rbind (mode_dot_z acc (if tr then conj_t (transpose_rev M) else M) (z - dec)%Z false)
+                 (fun acc' => mmd_loop_z r skip tr (if ndim M =? 1 then (dec + 1)%Z else dec) acc')
+  end.
+Definition multi_mode_dot_z (T : tensor F) (Ms : list (tensor F)) (ms : list Z) (skip : option nat) (tr : bool) : res (tensor F) :=
+  mmd_loop_z (sort_by_mode_z (zip3z Ms ms)) skip tr 0%Z T.
+(* einsum backend: tensor_modes[mode] picks the operand's label; result_modes.pop(mode - decrement) / result_modes[mode - decrement] = new label *)
+Fixpoint mmd_e_loop_z (l : list ztriple) (skip : option nat) (tr : bool) (order : nat) (st : mmd_state) : res mmd_state :=
+  match l with
+  | [] => Ok st
+  | (M, z, i) :: r =>
+      if is_skip skip i then mmd_e_loop_z r skip tr order st
+      else match py_index order z, py_index (length (s_out st)) (z - Z.of_nat (s_dec st))%Z with
+      | Some k, Some q =>
+          match ndim M with
+          | 1 => mmd_e_loop_z r skip tr order
+                   (mkS (s_ins st ++ [[k]]) (s_ops st ++ [if tr then conj_t M else M])
+                        (remove_nth q (s_out st)) (s_counter st) (S (s_dec st)))
+          | 2 => mmd_e_loop_z r skip tr order
+                   (mkS (s_ins st ++ [[s_counter st; k]]) (s_ops st ++ [if tr then conj_t (transpose_rev M) else M])
+                        (set_nth q (s_counter st) (s_out st)) (S (s_counter st)) (s_dec st))
+          | _ => Err
+          end
+      | _, _ => match ndim M with 1 | 2 => Err | _ => Err end
+      end
+  end.
+Definition multi_mode_dot_e_z (T : tensor F) (Ms : list (tensor F)) (ms : list Z) (skip : option nat) (tr : bool) : res (tensor F) :=
+  let order := ndim T in
+  rbind (mmd_e_loop_z (sort_by_mode_z (zip3z Ms ms)) skip tr order (mkS [] [] (seq 0 order) (order + 1) 0)) (fun st =>
+  if einsum_sizes_ok (seq 0 order :: s_ins st) (T :: s_ops st)
+  then Ok (einsum (seq 0 order :: s_ins st) (s_out st) (T :: s_ops st)) else Err).
+
 (* np.einsum operand checks: the weights need exactly one axis, of length R or 1 (broadcast); the mask one axis per matrix with
    the row counts (masks with broadcastable size-1 axes are outside the model: Err) *)
 Definition einsum_weights (R : nat) (w : option (tensor F)) : res (option (tensor F)) :=
